@@ -626,16 +626,45 @@ def _alive_shard(arg):
 
 
 # ------------------------------------------------ decoding on other threads ----
-THREAD_FORMS = ("thread", "pool", "pool-map", "asyncio-executor", "two-threads")
+THREAD_FORMS = ("thread", "pool", "pool-map", "asyncio-executor", "two-threads", "warnings-as-errors", "frame-subclasses")
 THREAD_SLICES = 8
 
 
-def _fp_list(inputs):
+_FRAME_SUBCLASSES = {}
+
+
+def _app_frame(frame, bits, v):
+    """The frame as an object of a class the application derived from ForwardFrame (fixed-width in the style of
+    BackwardFrame for 16/24 bits, an extra required argument otherwise)."""
+    if not _FRAME_SUBCLASSES:
+        class GearFrame(frame.ForwardFrame):
+            def __init__(self, data):
+                frame.ForwardFrame.__init__(self, 16, data)
+
+        class DeviceFrame(frame.ForwardFrame):
+            def __init__(self, data):
+                frame.ForwardFrame.__init__(self, 24, data)
+
+        class SniffedFrame(frame.ForwardFrame):
+            def __init__(self, bits, data, stamp):
+                frame.ForwardFrame.__init__(self, bits, data)
+                self.stamp = stamp
+        _FRAME_SUBCLASSES.update(g=GearFrame, d=DeviceFrame, s=SniffedFrame)
+    if bits == 16 and v % 3:
+        return _FRAME_SUBCLASSES["g"](v)
+    if bits == 24 and v % 3:
+        return _FRAME_SUBCLASSES["d"](v)
+    return _FRAME_SUBCLASSES["s"](bits, v, 12.5)
+
+
+def _fp_list(inputs, subclass_frames=False):
     command, frame = _load()
     out = []
     for bits, v, dt, mc, um in inputs:
         try:
-            if (v + dt) % 2:
+            if subclass_frames:
+                c = command.Command.from_frame(_app_frame(frame, bits, v), devicetype=dt, dev_inst_map=get_map(mc) if um else None)
+            elif (v + dt) % 2:
                 c = command.Command.from_frame(frame.ForwardFrame(bits, v), devicetype=dt,
                                                dev_inst_map=get_map(mc) if um else None)
             else:
@@ -684,6 +713,14 @@ def run_threads(case):
     elif form == "pool-map":
         with concurrent.futures.ThreadPoolExecutor(max_workers=4) as ex:
             got = [r[0] for r in ex.map(lambda t: _fp_list([t]), inputs)]
+    elif form == "warnings-as-errors":
+        # a program (or its test suite) that runs with warnings turned into errors: decoding is still silent
+        import warnings
+        with warnings.catch_warnings():
+            warnings.simplefilter("error")
+            got = _fp_list(inputs)
+    elif form == "frame-subclasses":
+        got = _fp_list(inputs, subclass_frames=True)
     elif form == "asyncio-executor":
         import asyncio
 
@@ -698,10 +735,13 @@ def run_threads(case):
         return out
     for t, a, b in zip(inputs, main, got):
         if a != b:
-            sig = "C01:decode-differs-on-other-thread"
+            where_ = {"warnings-as-errors": "under-warnings-as-errors", "frame-subclasses": "for-frame-subclass-object"}.get(form, "on-other-thread")
+            sig = "C01:decode-differs-" + where_
             if b.startswith("<decode raised") and not a.startswith("<decode raised"):
-                sig = "C01:decode-raised-on-other-thread:" + b[15:-1]
-            out.append((sig, "from_frame%r gives %r on the main thread and %r on a %s" % (t, a, b, form)))
+                sig = "C01:decode-raised-%s:" % where_ + b[15:-1]
+            out.append((sig, "from_frame%r gives %r on the main thread and %r %s" % (
+                t, a, b, {"warnings-as-errors": "with warnings turned into errors",
+                          "frame-subclasses": "when the frame is an object of an application subclass of ForwardFrame"}.get(form, "on a " + form))))
             break
     return out
 
